@@ -180,9 +180,15 @@ class _ModificationStore:
 
         # Now sort all of the insertions by their offsets and then IDs. This
         # ensures modifications at the same offset are performed in the order
-        # they were registered.
+        # they were registered. An insertion goes before the instruction at
+        # its offset, so it is applied before a replacement or deletion that
+        # starts there no matter which of the two was registered first.
         modifications_and_offsets.sort(
-            key=lambda mod_and_off: (mod_and_off[1], mod_and_off[0].id)
+            key=lambda mod_and_off: (
+                mod_and_off[1],
+                mod_and_off[0].scope._replacement_length() != 0,
+                mod_and_off[0].id,
+            )
         )
 
         # Assert that we don't have any modifications that conflict.
